@@ -13,7 +13,7 @@
 From Coq Require Import NArith ZArith List Bool.
 From ST Require Import Base.Outcome Base.Units Utf.Spec Utf.Tokens Utf.Model Utf.ProofsGeneric Utf.ProofsC01 Utf.ProofsC02 Utf.ApiCoverage.
 From ST Require Utf.LeafBridge Gen.Leaf.
-From ST Require Utf.LoopBridge Utf.LoopBridgeValidate Utf.LoopBridgeExtract Utf.LoopBridgeWrite Utf.LoopBridgeConvert32.
+From ST Require Utf.LoopBridge Utf.LoopBridgeValidate Utf.LoopBridgeExtract Utf.LoopBridgeWrite Utf.LoopBridgeConvert32 Utf.LoopBridgeConvertTo32 Utf.LoopBridgeConvert8To16.
 Import ListNotations.
 Local Open Scope N_scope.
 
@@ -208,3 +208,31 @@ Theorem utf32_to_utf8_pass_matches_source : forall l m fuel, all_lt 4294967296 l
       utf8_convert_from_utf32 d l m = Ok (e, ((fst d - length ws)%nat, rev (map ST.Utf.LoopBridgeWrite.byte_of ws) ++ snd d)).
 Proof. exact ST.Utf.LoopBridgeConvert32.utf8_convert_from_utf32_matches_source. Qed.
 Print Assumptions utf32_to_utf8_pass_matches_source.
+
+(* the conversion passes that decode their input: X -> UTF-32 from UTF-8 and from UTF-16, and UTF-8 -> UTF-16 (decoder,
+   char_error and encoder are the translated functions) *)
+Theorem decoding_passes_match_source : forall l m fuel, (length l < fuel)%nat ->
+  (all_lt 256 l = true ->
+     (exists e ws,
+        ST.Gen.Leaf.src_utf32_convert_from_utf8 fuel (ST.Utf.LoopBridge.arr8s l) (Z.of_nat (length l)) (ST.Utf.LoopBridgeConvert32.mode_code m)
+          = Some (Z.of_N (cerr_code e), ws) /\
+        forall d : dst, (length ws <= fst d)%nat ->
+          utf32_convert_from_utf8 d l m = Ok (e, ((fst d - length ws)%nat, rev (map ST.Utf.LoopBridgeConvertTo32.unit32_of ws) ++ snd d))) /\
+     (exists e ws,
+        ST.Gen.Leaf.src_utf16_convert_from_utf8 fuel (ST.Utf.LoopBridge.arr8s l) (Z.of_nat (length l)) (ST.Utf.LoopBridgeConvert32.mode_code m)
+          = Some (Z.of_N (cerr_code e), ws) /\
+        forall d : dst, (length ws <= fst d)%nat ->
+          utf16_convert_from_utf8 d l m = Ok (e, ((fst d - length ws)%nat, rev (map ST.Utf.LoopBridgeWrite.unit16_of ws) ++ snd d)))) /\
+  (all_lt 65536 l = true ->
+     exists e ws,
+        ST.Gen.Leaf.src_utf32_convert_from_utf16 fuel (ST.Utf.LoopBridge.arr32 l) (Z.of_nat (length l)) (ST.Utf.LoopBridgeConvert32.mode_code m)
+          = Some (Z.of_N (cerr_code e), ws) /\
+        forall d : dst, (length ws <= fst d)%nat ->
+          utf32_convert_from_utf16 d l m = Ok (e, ((fst d - length ws)%nat, rev (map ST.Utf.LoopBridgeConvertTo32.unit32_of ws) ++ snd d))).
+Proof.
+  exact (fun l m fuel Hf => conj
+    (fun A => conj (ST.Utf.LoopBridgeConvertTo32.utf32_convert_from_utf8_matches_source l m fuel A Hf)
+                   (ST.Utf.LoopBridgeConvert8To16.utf16_convert_from_utf8_matches_source l m fuel A Hf))
+    (fun A => ST.Utf.LoopBridgeConvertTo32.utf32_convert_from_utf16_matches_source l m fuel A Hf)).
+Qed.
+Print Assumptions decoding_passes_match_source.
